@@ -5,7 +5,10 @@ ROOT = os.path.dirname(os.path.dirname(os.path.abspath(__file__)))
 def load(p):
     try: return json.load(open(p))
     except Exception: return []
-seeded = {r["id"]: r for r in load(sys.argv[1])}
+# seeded results: one file, or several comma-separated files (one per seed)
+seed_files = sys.argv[1].split(",")
+seeded_runs = [{r["id"]: r for r in load(f)} for f in seed_files]
+seeded = seeded_runs[0]
 catalogue = {r["id"]: r for r in load(sys.argv[2])}
 harmless = {r["id"]: r for r in load(sys.argv[3])} if len(sys.argv) > 3 else {}
 cat_meta = {m["id"]: m for m in json.load(open(os.path.join(ROOT, "design", "mutants.json")))["mutants"]}
@@ -22,8 +25,21 @@ print("| Change | Breaks | What it is / what it needs to manifest | Reported by 
 print("|---|---|---|---|")
 for d in sorted(glob.glob(os.path.join(ROOT, "seeded", "S*-*"))):
     m = json.load(open(d + "/meta.json")); sid = os.path.basename(d)
-    r = seeded.get(sid, {})
-    print("| %s | %s | %s — *needs:* %s | %s |" % (sid, " ".join(m["breaks"]), m["summary"].replace("|", "/")[:160], m["needs_to_manifest"].replace("|", "/")[:170], verdict(r) if r else "not run"))
+    rs = [run.get(sid) for run in seeded_runs if run.get(sid)]
+    if not rs:
+        v = "not run"
+    elif not rs[0].get("applied"):
+        v = "patch no longer applies" + (" (" + m["note"][:90] + "…)" if m.get("note") else "")
+    else:
+        hits = sum(1 for r in rs if r.get("detected_by"))
+        concrete = any(any("no-failing-input-found" not in x for p in (r.get("detected_by") or []) for x in r["checks"][p]["violations"]) for r in rs)
+        props = sorted({p for r in rs for p in (r.get("detected_by") or [])})
+        if hits == 0:
+            v = "**missed**" + (" — " + m["note"][:140] if m.get("note") else "")
+        else:
+            v = "%s (%s)%s" % (", ".join(props), "failing input" if concrete else "broken obligation/correspondence, no failing input",
+                               "" if len(rs) == 1 else ", %d/%d seeds" % (hits, len(rs)))
+    print("| %s | %s | %s — *needs:* %s | %s |" % (sid, " ".join(m["breaks"]), m["summary"].replace("|", "/")[:160], m["needs_to_manifest"].replace("|", "/")[:170], v))
 for mid, r in catalogue.items():
     m = cat_meta[mid]
     if m["harmless"] in (True, "True"): continue
@@ -37,7 +53,16 @@ for d in sorted(glob.glob(os.path.join(ROOT, "seeded", "H-*"))):
     m = json.load(open(d + "/meta.json")); sid = os.path.basename(d)
     r = harmless.get(sid, {})
     al = [p for p, c in (r.get("checks") or {}).items() if isinstance(c, dict) and c["rc"] != 0]
-    print("| %s | %s | %s |" % (sid, m["summary"].replace("|", "/")[:170], ("none (%d checks)" % len(r.get("checks", {}))) if r and not al else ("**" + ", ".join(al) + "**" if al else "not run")))
+    exp = m.get("expected_alarms") or []
+    if not r:
+        v = "not run"
+    elif not al:
+        v = "none (%d checks)" % len(r.get("checks", {}))
+    elif sorted(al) == sorted(exp):
+        v = "%s only, `no-failing-input-found` — by the letter of its third sentence (package-level `sync.Pool` on a read path); the other %d checks silent" % (", ".join(al), len(r["checks"]) - len(al))
+    else:
+        v = "**" + ", ".join(al) + "**"
+    print("| %s | %s | %s |" % (sid, m["summary"].replace("|", "/")[:170], v))
 for mid, r in catalogue.items():
     m = cat_meta[mid]
     if m["harmless"] in (True, "True"):
